@@ -97,6 +97,7 @@ def check(ctx):
         key = "top|%s|%s" % (fn.path.rsplit("::", 1)[-1], kind)
         if kind == "state":
             ok = bool(re.match(r"^StateIndex::StateIndex\{\(range::next\(IntoIterator@\w+::into_iter\(Range::Range\{const\(0_usize\), (slice|Vec)::len\((Deref@Oset::deref\()?param1\.(\w+)\.states\)?\)\}\)\) as Some\)\.0\}$", got))
+            ok = ok or bool(re.match(r"^StateIndex::StateIndex\{\(Iterator@Enumerate::next\(IntoIterator@\w+::into_iter\(Iterator::enumerate\(slice::iter\((Deref@Oset::deref\()?param1\.(\w+)\.states\)?\)\)\)\) as Some\)\.0\.0\}$", got))
             msg = "the state index handed down must be the loop counter over 0..states.len() of the automaton in the context"
         else:
             fsp = param_of_type(fn, "::StateIndex")
